@@ -505,6 +505,8 @@ class CallMixin(object):
         ty = recv.ty
         if isinstance(ty, Ref):
             c = self.reg.methods.get((ty.cls, name))
+            if c is not None and getattr(c, "static", False):
+                return self.call_contract(c, args, kw, st, node)        # staticmethod called through an instance
             if c is None and name in ("items", "keys", "values") and self.reg.classes[ty.cls].get("__mapview__"):
                 # a dict subclass: the view methods are those of its content map
                 inner = self.heap_get(st, recv, self.reg.classes[ty.cls]["__mapview__"])
@@ -913,6 +915,8 @@ class CallMixin(object):
     # -- str
     def m_str_startswith(self, recv, args, kw, st, node):
         a = args[0]
+        if isinstance(a.ty, List) and a.ty.elem is STR:
+            return [(st, V(BOOL, core.exists_int(0, core.llen(a), lambda j: core.str_startswith(recv, core.lget(a, j)))))]
         if a.ty is STATIC or isinstance(a.ty, Tup):
             items = a.items if a.items is not None else [core.tget(a, i) for i in range(len(a.ty.elems))]
             return [(st, V(BOOL, z3.Or([core.str_startswith(recv, i) for i in items])))]
